@@ -20,7 +20,8 @@ import (
 )
 
 // Plan returns the operation kinds of a run: "A" append, "S" save offset, "R" save with a dead
-// context first and then again with a live one (retry of the same offset).
+// context first and then again with a live one (retry of the same offset), "T" a replay-style pass:
+// the log is streamed and the position saved after every event while the stream is still open.
 func Plan(seed uint64, n int) []string {
 	r := rand.New(rand.NewPCG(seed, 0xC14))
 	ops := make([]string, n)
@@ -28,8 +29,10 @@ func Plan(seed uint64, n int) []string {
 		switch x := r.IntN(10); {
 		case i == 0 || x < 6:
 			ops[i] = "A"
-		case x < 9:
+		case x < 8:
 			ops[i] = "S"
+		case x < 9:
+			ops[i] = "T"
 		default:
 			ops[i] = "R"
 		}
@@ -110,6 +113,24 @@ func main() {
 			prev, last = last, off
 			all = append(all, off)
 			next++
+		case "T":
+			sub := fmt.Sprintf("sub-%d", i%3)
+			n := 0
+			for e, err := range st.ReadStream(ctx, ebu.OffsetOldest) {
+				if err != nil {
+					fmt.Fprintln(os.Stderr, "stream:", err)
+					os.Exit(5)
+				}
+				fmt.Fprintf(ack, "I %d %s %s\n", i, sub, e.Offset)
+				if err := st.SaveOffset(ctx, sub, e.Offset); err != nil {
+					fmt.Fprintln(os.Stderr, "save:", err)
+					os.Exit(5)
+				}
+				fmt.Fprintf(ack, "S %d %s %s\n", i, sub, e.Offset)
+				if n++; n >= 6 {
+					break
+				}
+			}
 		case "S", "R":
 			sub := fmt.Sprintf("sub-%d", i%3)
 			if op == "R" {
@@ -128,6 +149,8 @@ func main() {
 			switch x := r2.IntN(10); {
 			case x < 2 && len(all) > 0:
 				off = all[r2.IntN(len(all))]
+			case x == 3:
+				off = []ebu.Offset{ebu.OffsetOldest, "0"}[r2.IntN(2)] // rewound to the very start
 			case x == 2:
 				n, _ := strconv.Atoi(string(last))
 				off = ebu.Offset(strconv.Itoa(n + 1 + r2.IntN(60)))
